@@ -51,38 +51,38 @@ func cliStage(r *mon.Run) {
 	type group struct {
 		name   string
 		victim []byte // the file whose header is edited
-		run    func(dir string, edited []byte) *cli.Result
+		run    func(dir string, edited []byte, env []string) *cli.Result
 	}
 	groups := []group{
-		{"passphrase-file", scryptFile, func(dir string, ed []byte) *cli.Result {
+		{"passphrase-file", scryptFile, func(dir string, ed []byte, env []string) *cli.Result {
 			os.WriteFile(filepath.Join(dir, "in.age"), ed, 0o600)
-			return cli.Run(&cli.Cmd{Argv: []string{age, "-d", "-o", "out", "in.age"}, Dir: dir, TTY: true,
+			return cli.Run(&cli.Cmd{Argv: []string{age, "-d", "-o", "out", "in.age"}, Dir: dir, Env: env, TTY: true,
 				Script: []cli.TTYStep{{Expect: "Enter passphrase", Send: pass + "\n"}}})
 		}},
-		{"native-file-plain-key", xFile, func(dir string, ed []byte) *cli.Result {
+		{"native-file-plain-key", xFile, func(dir string, ed []byte, env []string) *cli.Result {
 			os.WriteFile(filepath.Join(dir, "in.age"), ed, 0o600)
-			return cli.Run(&cli.Cmd{Argv: []string{age, "-d", "-i", filepath.Join(work, "x1.key"), "-o", "out", "in.age"}, Dir: dir})
+			return cli.Run(&cli.Cmd{Argv: []string{age, "-d", "-i", filepath.Join(work, "x1.key"), "-o", "out", "in.age"}, Dir: dir, Env: env})
 		}},
 		// the same key file named twice: two identities of one Decrypt call
 		// open the file (also a key file next to a copy of it)
-		{"native-file-plain-key-twice", xFile, func(dir string, ed []byte) *cli.Result {
+		{"native-file-plain-key-twice", xFile, func(dir string, ed []byte, env []string) *cli.Result {
 			os.WriteFile(filepath.Join(dir, "in.age"), ed, 0o600)
-			return cli.Run(&cli.Cmd{Argv: []string{age, "-d", "-i", filepath.Join(work, "x1.key"), "-i", filepath.Join(work, "x1.key"), "-o", "out", "in.age"}, Dir: dir})
+			return cli.Run(&cli.Cmd{Argv: []string{age, "-d", "-i", filepath.Join(work, "x1.key"), "-i", filepath.Join(work, "x1.key"), "-o", "out", "in.age"}, Dir: dir, Env: env})
 		}},
-		{"native-file-key-and-copy-behind-other", xFile, func(dir string, ed []byte) *cli.Result {
+		{"native-file-key-and-copy-behind-other", xFile, func(dir string, ed []byte, env []string) *cli.Result {
 			os.WriteFile(filepath.Join(dir, "in.age"), ed, 0o600)
-			return cli.Run(&cli.Cmd{Argv: []string{age, "-d", "-i", filepath.Join(work, "x4.key"), "-i", filepath.Join(work, "x1.key"), "-i", filepath.Join(work, "x1copy.key"), "-o", "out", "in.age"}, Dir: dir})
+			return cli.Run(&cli.Cmd{Argv: []string{age, "-d", "-i", filepath.Join(work, "x4.key"), "-i", filepath.Join(work, "x1.key"), "-i", filepath.Join(work, "x1copy.key"), "-o", "out", "in.age"}, Dir: dir, Env: env})
 		}},
-		{"native-file-encrypted-identity", xFile, func(dir string, ed []byte) *cli.Result {
+		{"native-file-encrypted-identity", xFile, func(dir string, ed []byte, env []string) *cli.Result {
 			os.WriteFile(filepath.Join(dir, "in.age"), ed, 0o600)
 			os.WriteFile(filepath.Join(dir, "id.age"), encID, 0o600)
-			return cli.Run(&cli.Cmd{Argv: []string{age, "-d", "-i", "id.age", "-o", "out", "in.age"}, Dir: dir, TTY: true,
+			return cli.Run(&cli.Cmd{Argv: []string{age, "-d", "-i", "id.age", "-o", "out", "in.age"}, Dir: dir, Env: env, TTY: true,
 				Script: []cli.TTYStep{{Expect: "Enter passphrase for identity file", Send: idpass + "\n"}}})
 		}},
-		{"encrypted-identity-file-itself", encID, func(dir string, ed []byte) *cli.Result {
+		{"encrypted-identity-file-itself", encID, func(dir string, ed []byte, env []string) *cli.Result {
 			os.WriteFile(filepath.Join(dir, "in.age"), xFile, 0o600)
 			os.WriteFile(filepath.Join(dir, "id.age"), ed, 0o600)
-			return cli.Run(&cli.Cmd{Argv: []string{age, "-d", "-i", "id.age", "-o", "out", "in.age"}, Dir: dir, TTY: true,
+			return cli.Run(&cli.Cmd{Argv: []string{age, "-d", "-i", "id.age", "-o", "out", "in.age"}, Dir: dir, Env: env, TTY: true,
 				Script: []cli.TTYStep{{Expect: "Enter passphrase for identity file", Send: idpass + "\n"}}})
 		}},
 	}
@@ -90,13 +90,14 @@ func cliStage(r *mon.Run) {
 		g    int
 		name string
 		data []byte
+		env  string // environment pass: "NAME=value" handed to the tool, else ""
 	}
 	var jobs []job
 	for gi, g := range groups {
 		// control first: the unedited file must decrypt
 		dir := filepath.Join(work, fmt.Sprintf("ctl%d", gi))
 		os.MkdirAll(dir, 0o755)
-		res := g.run(dir, g.victim)
+		res := g.run(dir, g.victim, nil)
 		got, _ := os.ReadFile(filepath.Join(dir, "out"))
 		if res.Err != nil || res.Exit != 0 || !bytes.Equal(got, pt) {
 			r.Inconclusive("C03 CLI control %s did not decrypt: %v %s", g.name, res.Err, res)
@@ -106,7 +107,7 @@ func cliStage(r *mon.Run) {
 		hdr, _, _ := refage.ParseHeader(g.victim)
 		add := func(name string, ed []byte) {
 			if !bytes.Equal(ed, g.victim) {
-				jobs = append(jobs, job{gi, name, ed})
+				jobs = append(jobs, job{gi, name, ed, ""})
 			}
 		}
 		// every single-bit flip of the header (quick: every 3rd bit, all bits of argument lines)
@@ -170,6 +171,38 @@ func cliStage(r *mon.Run) {
 			}
 		}
 	}
+	// environment pass: every group once more under each setting the tree
+	// reads (mon.EnvSettings), on a thinned edit set: all non-bit-flip edits
+	// and every 8th of the bit flips above. The unedited file must still
+	// decrypt under the setting.
+	base := len(jobs)
+	for _, set := range mon.EnvSettings() {
+		okGroup := map[int]bool{}
+		for gi, g := range groups {
+			dir := filepath.Join(work, fmt.Sprintf("ctl%d-%s", gi, set.Value))
+			os.MkdirAll(dir, 0o755)
+			res := g.run(dir, g.victim, []string{set.String()})
+			got, _ := os.ReadFile(filepath.Join(dir, "out"))
+			if res.Err != nil || res.Exit != 0 || !bytes.Equal(got, pt) {
+				r.Inconclusive("C03 CLI control %s did not decrypt with %s set: %v %s", g.name, set, res.Err, res)
+				continue
+			}
+			okGroup[gi] = true
+		}
+		nflip := 0
+		for _, j := range jobs[:base] {
+			if !okGroup[j.g] {
+				continue
+			}
+			if strings.HasPrefix(j.name, "bitflip@") {
+				nflip++
+				if nflip%8 != 0 {
+					continue
+				}
+			}
+			jobs = append(jobs, job{j.g, j.name, j.data, set.String()})
+		}
+	}
 	r.Set("cli_stage_edits", len(jobs))
 	mon.ParN(12, len(jobs), func(i int) {
 		j := jobs[i]
@@ -177,9 +210,17 @@ func cliStage(r *mon.Run) {
 		dir := filepath.Join(work, fmt.Sprintf("j%06d", i))
 		os.MkdirAll(dir, 0o755)
 		defer os.RemoveAll(dir)
-		res := g.run(dir, j.data)
+		var env []string
+		envKey := ""
+		if j.env != "" {
+			env = []string{j.env}
+			envKey = ":env=" + j.env
+			noteEnvCLI(j.env)
+			r.Tab("env_setting_cli", j.env)
+		}
+		res := g.run(dir, j.data, env)
 		r.Eval(1)
-		r.Distinct("cli:" + g.name + ":" + j.name)
+		r.Distinct("cli:" + g.name + ":" + j.name + envKey)
 		r.Count("cli_stage_runs", 1)
 		r.Count("cases/cli", 1)
 		if res.Err != nil {
@@ -191,11 +232,11 @@ func cliStage(r *mon.Run) {
 		if k := strings.IndexAny(cls, "@:"); k > 0 {
 			cls = cls[:k]
 		}
-		replay := map[string]any{"group": g.name, "edit": j.name, "edited_header": string(mon.Trunc(j.data, 400))}
+		replay := map[string]any{"group": g.name, "edit": j.name, "environment": j.env, "edited_header": string(mon.Trunc(j.data, 400))}
 		if res.Exit == 0 {
-			r.Violate("cli-header-edit-accepted:"+g.name+":"+cls, fmt.Sprintf("age -d (%s) accepted a file whose header was altered (%s) and wrote %q", g.name, j.name, mon.Trunc(out, 60)), replay)
+			r.Violate("cli-header-edit-accepted:"+g.name+":"+cls+envKey, fmt.Sprintf("age -d (%s)%s accepted a file whose header was altered (%s) and wrote %q", g.name, envKey, j.name, mon.Trunc(out, 60)), replay)
 		} else if statErr == nil {
-			r.Violate("cli-output-on-header-refusal:"+g.name+":"+cls, fmt.Sprintf("age -d (%s) refused the altered header (%s) but created the output (%d bytes)", g.name, j.name, len(out)), replay)
+			r.Violate("cli-output-on-header-refusal:"+g.name+":"+cls+envKey, fmt.Sprintf("age -d (%s)%s refused the altered header (%s) but created the output (%d bytes)", g.name, envKey, j.name, len(out)), replay)
 		} else {
 			r.Count("cli_stage_refusals", 1)
 		}
